@@ -1214,3 +1214,83 @@ func sameValue(a, b ssa.Value) bool {
 	}
 	return false
 }
+
+// ---------- N8 ----------
+
+func init() {
+	register("N8", "an exhausted iterator stays exhausted: in every Iterator.Next implementation no field of the iterator is written on a path that ends in `return false`, so calling Next again after exhaustion (the interpreter's UNPACK does, to tell too-few from too-many) finds the same state and cannot index past the end", 7, ruleN8)
+	claim("C02", "N8")
+}
+
+func ruleN8(c *Ctx) {
+	n := 0
+	for _, fn := range c.P.Funcs {
+		if !isProdPkg(fnPkgPath(fn)) || fn.Name() != "Next" || fn.Signature.Recv() == nil || fn.Blocks == nil {
+			continue
+		}
+		sig := fn.Signature
+		if sig.Params().Len() != 1 || sig.Results().Len() != 1 {
+			continue
+		}
+		if b, ok := sig.Results().At(0).Type().Underlying().(*types.Basic); !ok || b.Kind() != types.Bool {
+			continue
+		}
+		if _, ok := sig.Recv().Type().(*types.Pointer); !ok {
+			continue
+		}
+		n++
+		recv := fn.Params[0]
+		// blocks from which control leaves with result false
+		var falseExits []*ssa.BasicBlock
+		eachInstr(fn, func(in ssa.Instruction) {
+			ret, ok := in.(*ssa.Return)
+			if !ok || len(ret.Results) != 1 {
+				return
+			}
+			switch r := ret.Results[0].(type) {
+			case *ssa.Const:
+				if r.Value != nil && r.Value.String() == "false" {
+					falseExits = append(falseExits, ret.Block())
+				}
+			case *ssa.Phi:
+				for i, e := range r.Edges {
+					if k, ok := e.(*ssa.Const); ok && k.Value != nil && k.Value.String() == "false" {
+						falseExits = append(falseExits, r.Block().Preds[i])
+					}
+				}
+			default:
+				// computed result (e.g. delegating to another iterator): nothing to say
+			}
+		})
+		key := fnName(fn) + ": exhausted path"
+		pos := c.P.Pos(fn.Pos())
+		bad := ""
+		eachInstr(fn, func(in ssa.Instruction) {
+			st, ok := in.(*ssa.Store)
+			if !ok {
+				return
+			}
+			fa, ok := st.Addr.(*ssa.FieldAddr)
+			if !ok || fa.X != ssa.Value(recv) {
+				return
+			}
+			for _, ex := range falseExits {
+				if st.Block() == ex || blockReaches(st.Block(), ex) {
+					stt := deref(recv.Type()).Underlying().(*types.Struct)
+					bad = fmt.Sprintf("field %s is written at %s on a path that then returns false", stt.Field(fa.Field).Name(), c.P.Pos(st.Pos()))
+				}
+			}
+		})
+		switch {
+		case bad != "":
+			c.viol(key, pos, "Next changes the iterator's state when it reports exhaustion ("+bad+"): a second call after exhaustion sees a different state (a cursor past the end indexes out of range, a host panic)")
+		case len(falseExits) == 0:
+			c.trivial(key, pos, "no constant-false exit (delegates)")
+		default:
+			c.ok(key, pos, fmt.Sprintf("%d exhausted exit(s), none preceded by a write to the iterator", len(falseExits)))
+		}
+	}
+	if n < 7 {
+		c.anchorFail("only %d Next methods found", n)
+	}
+}
